@@ -332,6 +332,54 @@ func (w *world) honestResume(s *sess, n int) string {
 	return ""
 }
 
+// resumeWithInvalidation runs an honest resumption and invalidates the session from inside the server's
+// first write (its reply), i.e. while the resumption is in flight.
+func (w *world) resumeWithInvalidation(s *sess, n int) string {
+	if s.minted {
+		if _, ok := s.ccfg.SessionCache.Lookup(s.sid); !ok {
+			_, _ = security.ImportClaimSession(s.ccfg.SessionCache, s.claimID, security.ClaimSessionOptions{PeerAddr: s.ccfg.PeerName})
+		}
+	}
+	pa, pb := kit.NextPorts()
+	cc, sc := kit.NewBufPipe(pa, pb)
+	var once sync.Once
+	reported := true
+	sc.OnWrite = func(i int) {
+		once.Do(func() {
+			reported = security.InvalidateSession(s.sid)
+			if ownCache != nil && ownCache.Invalidate(s.sid) {
+				reported = true
+			}
+		})
+	}
+	var so *srvOut
+	var wg sync.WaitGroup
+	wg.Add(1)
+	go func() { defer wg.Done(); so = runServer(sc, true) }()
+	ctx, cancel := context.WithTimeout(context.Background(), 3*time.Second)
+	defer cancel()
+	cst := stream.NewStream(cc)
+	a := security.NewAuthenticator(s.ccfg, cst)
+	if _, err := a.ClientHandshake(ctx); err == nil {
+		_ = cst.SendMessage(ctx, []byte(fmt.Sprintf("INFLIGHT-%d", n)))
+		_, _ = cst.ReceiveCompleteMessage(ctx)
+	} else {
+		_ = cc.Close()
+	}
+	wg.Wait()
+	_ = cc.Close()
+	_ = sc.Close()
+	_ = so
+	s.alive = false
+	if !a.WasSessionResumed() {
+		return "" // the client did not try to resume: nothing was in flight
+	}
+	if e := findEntry(s.sid); e != nil {
+		return fmt.Sprintf("session %s was invalidated (reported %v) while a resumption of it was in flight, and is back in the server's cache once that resumption finished: a dead session was revived", s.sid, reported)
+	}
+	return ""
+}
+
 func mutateID(sid string, field int) string {
 	parts := strings.Split(sid, ":")
 	if len(parts) == 0 {
@@ -630,6 +678,13 @@ func runCase(c Case) (string, *world) {
 				}
 				s.alive = false
 			}
+		case "invalidate-inflight":
+			// the session is invalidated while a resumption of it is in flight (after the server looked it up,
+			// just before it writes its reply): that resumption may complete, but the session stays dead
+			if s != nil && s.alive && s.hasKey {
+				n++
+				v = w.resumeWithInvalidation(s, n)
+			}
 		case "attack":
 			if s != nil {
 				if !s.alive {
@@ -656,7 +711,7 @@ func genCase(t *rapid.T) Case {
 	c.Ops = append(c.Ops, Op{K: "establish", V: rapid.IntRange(0, 5).Draw(t, "v0")})
 	n := rapid.IntRange(3, 12).Draw(t, "nops")
 	for i := 0; i < n; i++ {
-		k := rapid.SampledFrom([]string{"establish", "resume", "resume", "expire", "invalidate", "attack", "attack", "attack", "replay", "replay"}).Draw(t, "op")
+		k := rapid.SampledFrom([]string{"establish", "resume", "resume", "expire", "invalidate", "invalidate-inflight", "attack", "attack", "attack", "replay", "replay"}).Draw(t, "op")
 		x := 0
 		if k == "attack" && rapid.Bool().Draw(t, "hostileAd") {
 			x = rapid.IntRange(1, len(resumeExtras)-1).Draw(t, "x")
@@ -696,7 +751,7 @@ func TestC06Histories(t *testing.T) {
 func TestC06Sweep(t *testing.T) {
 	bad := 0
 	for est := 0; est < 6; est++ {
-		for _, life := range []string{"fresh", "resumed1", "resumed3", "expired-lazy", "expired-swept", "invalidated"} {
+		for _, life := range []string{"fresh", "resumed1", "resumed3", "expired-lazy", "expired-swept", "invalidated", "invalidated-inflight"} {
 			for kind := 0; kind < 9; kind++ {
 				for _, rr := range []bool{true, false} {
 					for _, own := range []bool{false, true} {
@@ -757,7 +812,7 @@ func TestC06Sweep(t *testing.T) {
 		}
 	}
 	ev.Exhaustive("4 establishment kinds x 12 hostile request-ad attribute sets x {key holder, wrong key, no key} x {reply requested, not} x {global, own cache}")
-	ev.Exhaustive("6 establishment kinds (4 negotiated, 2 minted from a claim id) x 6 lifetime points x 9 attack kinds x {reply requested, not} x {server on the global cache, server with its own cache}, each followed by an honest resume and replays of both directions")
+	ev.Exhaustive("6 establishment kinds (4 negotiated, 2 minted from a claim id) x 7 lifetime points (incl. invalidated while a resumption was in flight) x 9 attack kinds x {reply requested, not} x {server on the global cache, server with its own cache}, each followed by an honest resume and replays of both directions")
 }
 
 func TestC06Replay(t *testing.T) {
